@@ -2,6 +2,7 @@ package rules
 
 import (
 	"go/ast"
+	"go/token"
 	"go/types"
 
 	"verif/checker/internal/core"
@@ -21,15 +22,139 @@ func callsIn(info *types.Info, n ast.Node, target *types.Func) []*ast.CallExpr {
 	return out
 }
 
-// rangesOverField finds `for ... := range <expr>.<Field>` statements in body.
-func rangesOverField(info *types.Info, body ast.Node, typ, field string) []*ast.RangeStmt {
-	var out []*ast.RangeStmt
-	ast.Inspect(body, func(x ast.Node) bool {
-		if rs, ok := x.(*ast.RangeStmt); ok {
-			if se, ok := ast.Unparen(rs.X).(*ast.SelectorExpr); ok {
-				if k, ok := fieldOf(info, se); ok && k.typ == typ && k.field == field {
-					out = append(out, rs)
+// fieldLoop: a loop over <expr>.<Field> — `for _, e := range x.F`, `for i := range x.F` or
+// `for i := 0; i < len(x.F); i++` (the bound may be an explaining local).
+type fieldLoop struct {
+	Stmt  ast.Stmt
+	Body  *ast.BlockStmt
+	info  *types.Info
+	elem  types.Object // range value variable, if any
+	index types.Object // range key / index variable, if any
+	over  string       // source text of x.F
+}
+
+func (l fieldLoop) Pos() token.Pos { return l.Stmt.Pos() }
+func (l fieldLoop) End() token.Pos { return l.Stmt.End() }
+
+// IsElem: e denotes the element of the current iteration — the range value variable, x.F[i], or a
+// local of the loop body defined as one of those.
+func (l fieldLoop) IsElem(e ast.Expr) bool {
+	e = ast.Unparen(e)
+	switch x := e.(type) {
+	case *ast.Ident:
+		o := l.info.Uses[x]
+		if o == nil {
+			return false
+		}
+		if o == l.elem && l.elem != nil {
+			return true
+		}
+		// local defined in the body from the element
+		found := false
+		ast.Inspect(l.Body, func(n ast.Node) bool {
+			if as, ok := n.(*ast.AssignStmt); ok && as.Tok == token.DEFINE && len(as.Lhs) == len(as.Rhs) {
+				for i, lh := range as.Lhs {
+					if id, ok := lh.(*ast.Ident); ok && l.info.Defs[id] == o && l.IsElem(as.Rhs[i]) {
+						found = true
+					}
 				}
+			}
+			return !found
+		})
+		return found
+	case *ast.IndexExpr:
+		if id, ok := ast.Unparen(x.Index).(*ast.Ident); ok && l.index != nil && l.info.Uses[id] == l.index {
+			return types.ExprString(ast.Unparen(x.X)) == l.over
+		}
+	case *ast.UnaryExpr:
+		if x.Op == token.AND {
+			return l.IsElem(x.X)
+		}
+	case *ast.StarExpr:
+		return l.IsElem(x.X)
+	}
+	return false
+}
+
+func loopsOverField(info *types.Info, body ast.Node, typ, field string) []fieldLoop {
+	isField := func(e ast.Expr) (string, bool) {
+		// through explaining locals: n := len(x.F) is handled by the caller; here e is x.F itself
+		if se, ok := ast.Unparen(e).(*ast.SelectorExpr); ok {
+			if k, ok := fieldOf(info, se); ok && k.typ == typ && k.field == field {
+				return types.ExprString(se), true
+			}
+		}
+		return "", false
+	}
+	lenOfField := func(e ast.Expr) (string, bool) {
+		e = ast.Unparen(e)
+		if id, ok := e.(*ast.Ident); ok {
+			// bound local: find its single definition in body
+			var def ast.Expr
+			n := 0
+			ast.Inspect(body, func(x ast.Node) bool {
+				if as, ok := x.(*ast.AssignStmt); ok {
+					for i, lh := range as.Lhs {
+						if li, ok := lh.(*ast.Ident); ok && (info.Defs[li] == info.Uses[id] || info.Uses[li] == info.Uses[id]) && info.Uses[id] != nil {
+							n++
+							if i < len(as.Rhs) {
+								def = as.Rhs[i]
+							}
+						}
+					}
+				}
+				return true
+			})
+			if n == 1 && def != nil {
+				e = ast.Unparen(def)
+			}
+		}
+		if ce, ok := e.(*ast.CallExpr); ok && len(ce.Args) == 1 {
+			if f, ok := ast.Unparen(ce.Fun).(*ast.Ident); ok && f.Name == "len" {
+				return isField(ce.Args[0])
+			}
+		}
+		return "", false
+	}
+	var out []fieldLoop
+	ast.Inspect(body, func(x ast.Node) bool {
+		switch st := x.(type) {
+		case *ast.RangeStmt:
+			if over, ok := isField(st.X); ok {
+				l := fieldLoop{Stmt: st, Body: st.Body, info: info, over: over}
+				if id, ok := st.Value.(*ast.Ident); ok {
+					l.elem = info.Defs[id]
+				}
+				if id, ok := st.Key.(*ast.Ident); ok {
+					l.index = info.Defs[id]
+				}
+				out = append(out, l)
+			}
+		case *ast.ForStmt:
+			as, ok := st.Init.(*ast.AssignStmt)
+			if !ok || as.Tok != token.DEFINE || len(as.Lhs) != 1 {
+				return true
+			}
+			id, ok := as.Lhs[0].(*ast.Ident)
+			if !ok {
+				return true
+			}
+			be, ok := ast.Unparen(st.Cond).(*ast.BinaryExpr)
+			if !ok {
+				return true
+			}
+			var bound ast.Expr
+			switch {
+			case be.Op == token.LSS && identObj(info, be.X) == info.Defs[id]:
+				bound = be.Y
+			case be.Op == token.GTR && identObj(info, be.Y) == info.Defs[id]:
+				bound = be.X
+			}
+			if bound == nil {
+				return true
+			}
+			if over, ok := lenOfField(bound); ok {
+				out = append(out, fieldLoop{Stmt: st, Body: st.Body, info: info, index: info.Defs[id], over: over})
 			}
 		}
 		return true
@@ -57,7 +182,7 @@ func ruleAllModelsValidated(c *core.Ctx) {
 	info := p.TypesInfo
 	// main package
 	top := 0
-	loops := rangesOverField(info, vpd.Body, "PackageInfo", "Versions")
+	loops := loopsOverField(info, vpd.Body, "PackageInfo", "Versions")
 	inLoop := func(n ast.Node) bool {
 		for _, l := range loops {
 			if l.Body.Pos() <= n.Pos() && n.End() <= l.Body.End() {
@@ -75,14 +200,10 @@ func ruleAllModelsValidated(c *core.Ctx) {
 	c.Check(len(loops) == 1, rule, "validatePackage/range Versions", vpd.Pos(), "one loop over packageInfo.Versions", "expected exactly one loop over packageInfo.Versions")
 	if len(loops) == 1 {
 		l := loops[0]
-		var verVar types.Object
-		if id, ok := l.Value.(*ast.Ident); ok {
-			verVar = info.Defs[id]
-		}
 		okParse := false
 		for _, ce := range callsIn(info, l.Body, paf) {
 			if len(ce.Args) == 1 {
-				if se, ok := ast.Unparen(ce.Args[0]).(*ast.SelectorExpr); ok && se.Sel.Name == "Package" && identObj(info, se.X) == verVar && verVar != nil {
+				if se, ok := ast.Unparen(ce.Args[0]).(*ast.SelectorExpr); ok && se.Sel.Name == "Package" && l.IsElem(se.X) {
 					okParse = true
 				}
 			}
@@ -104,17 +225,13 @@ func ruleAllModelsValidated(c *core.Ctx) {
 	c.Check(len(callsIn(info, vpd.Body, evo)) >= 1, rule, "validatePackage/dsl.ValidateEvolution", vpd.Pos(), "evolution check is invoked", "ValidateEvolution is never called")
 
 	// parsePackageNamespaces: recursion over p.Imports with imp.Package, appended to References
-	il := rangesOverField(info, ppnd.Body, "PackageInfo", "Imports")
+	il := loopsOverField(info, ppnd.Body, "PackageInfo", "Imports")
 	okRec := false
 	okAppend := false
 	for _, l := range il {
-		var v types.Object
-		if id, ok := l.Value.(*ast.Ident); ok {
-			v = info.Defs[id]
-		}
 		for _, ce := range callsIn(info, l.Body, ppn) {
 			if len(ce.Args) >= 1 {
-				if se, ok := ast.Unparen(ce.Args[0]).(*ast.SelectorExpr); ok && se.Sel.Name == "Package" && identObj(info, se.X) == v && v != nil {
+				if se, ok := ast.Unparen(ce.Args[0]).(*ast.SelectorExpr); ok && se.Sel.Name == "Package" && l.IsElem(se.X) {
 					okRec = true
 				}
 			}
@@ -133,7 +250,7 @@ func ruleAllModelsValidated(c *core.Ctx) {
 	c.Check(okRec, rule, "parsePackageNamespaces/recurse imp.Package", ppnd.Pos(), "every import is parsed recursively", "imports are not parsed recursively")
 	c.Check(okAppend, rule, "parsePackageNamespaces/References append", ppnd.Pos(), "every parsed import becomes a reference of the namespace", "parsed imports are not attached to namespace.References")
 	// flattenNamespaces: recursion over ns.References
-	rl := rangesOverField(info, fld.Body, "Namespace", "References")
+	rl := loopsOverField(info, fld.Body, "Namespace", "References")
 	okFl := false
 	for _, l := range rl {
 		if len(callsIn(info, l.Body, fl)) > 0 {
